@@ -351,6 +351,20 @@ theorem AllOk.connInner {srv : Server} (h : AllOk srv) (cfg : Config) (cn : Conn
   repeat' split
   all_goals first | exact h | exact h.inSession cfg _ _ _
 
+theorem AllOk.setMode {srv : Server} (h : AllOk srv) (c : Nat) (e : Err) : AllOk (setMode srv c e) := by
+  intro x hx
+  have : (Sess.setMode srv c e).sessions = srv.sessions := by cases e <;> rfl
+  rw [this] at hx
+  exact h x hx
+
+theorem AllOk.nonRequest {srv : Server} (h : AllOk srv) (c : Nat) (b : Bool) : AllOk (nonRequest srv c b) := by
+  unfold Sess.nonRequest
+  split
+  · exact h
+  · split
+    · exact h
+    · exact h.closeConn c
+
 theorem AllOk.handleRequest {srv : Server} (h : AllOk srv) (cfg : Config) (cn : Conn) (r : Request) :
     AllOk (handleRequest cfg srv cn r).1 := by
   have := h.connInner cfg cn r
@@ -361,13 +375,15 @@ theorem AllOk.handleRequest {srv : Server} (h : AllOk srv) (cfg : Config) (cn : 
   dsimp only
   split
   · exact AllOk.closeConn this _
-  · exact this
+  · exact AllOk.setMode this _ _
 
 theorem AllOk.stepEv {srv : Server} (h : AllOk srv) (cfg : Config) (e : Event) : AllOk (stepEv cfg srv e).1 := by
   cases e with
   | «open» c ip => simp only [Sess.stepEv]; split; exact h; exact h.withConns _
   | close c => exact h.closeConn c
   | expire sid => exact h.endSession sid
+  | frame c => exact h.nonRequest c true
+  | response c => exact h.nonRequest c false
   | req c r =>
     simp only [Sess.stepEv]
     split
